@@ -1,5 +1,5 @@
 (* Properties_C02.v — C02: the reader reports what the ELF specification says is in the file. *)
-From ElfioV Require Import Bytes Mem Stream SectionData Strings Strings_proofs Elfio Table Loader Load_proofs Data_proofs Codec_proofs Reader_proofs Reload_oneseg.
+From ElfioV Require Import Bytes Mem Stream SectionData Strings Strings_proofs Elfio Table Loader Load_proofs Data_proofs Codec_proofs Reader_proofs Reload_oneseg Segtable_proofs.
 Local Open Scope N_scope.
 
 (* ELF header: a file that begins with the gABI encoding of a header (either
@@ -88,6 +88,23 @@ Theorem C02_program_header_table_of_one_entry_reported :
       same_phdr g' r /\ g_sections r = map wrap16 (seg_members g' secs) /\ g_cls r = c /\ g_index r = 0.
 Proof. exact (load_segments_loop_single (fun _ => 0)). Qed.
 Print Assumptions C02_program_header_table_of_one_entry_reported.
+
+(* ... and the whole program header table, any number of entries (entry size es >= the record size): every segment
+   is reported with the encoded fields and exactly the members the rule selects among the sections loaded before,
+   in table order, and the loop ends "good" *)
+Theorem C02_program_header_table_reported :
+  forall enc c phoff es secs (segs : list segment) fuel st i racc allocs,
+    is_fail st = false -> st_inv st -> phoff < 2 ^ 62 -> phdr_size c <= es ->
+    phoff + (i + lenN segs) * es < 2 ^ 62 ->
+    Forall (fun g => g_cls g = c /\ phdr_wf g) segs ->
+    (forall k g, nth_optN segs k = Some g -> phoff + (i + k) * es + phdr_size c <= lenN (is_content st) /\
+                                             sliceN (is_content st) (phoff + (i + k) * es) (phdr_size c) = phdr_bytes enc g) ->
+    (length segs <= fuel)%nat ->
+    exists st' loaded allocs',
+      load_segments_loop fuel st [] secs enc c phoff es i (i + lenN segs) true racc allocs = Ok (st', rev loaded ++ racc, true, allocs') /\
+      Forall2 (seg_reported secs) segs loaded.
+Proof. exact (load_segments_loop_reports (fun _ => 0)). Qed.
+Print Assumptions C02_program_header_table_reported.
 
 (* names *)
 Theorem C02_name_is_cstring_at_offset :
